@@ -11,6 +11,7 @@ import (
 	"io"
 	"math"
 	"os"
+	goruntime "runtime"
 	"strconv"
 	"strings"
 	"time"
@@ -32,6 +33,8 @@ type lrCase struct {
 	Timeout int      `json:"timeout"` // ms, default 10000
 	NoLibs  bool     `json:"nolibs"`
 	MaxEv   int      `json:"maxev"`
+	Gor     bool     `json:"gor"` // report the number of goroutines left behind by the case
+	GorExp  *int     `json:"gor_expect"` // if set, wait (up to 3 s) for that number before reporting
 }
 
 type lrOut struct {
@@ -47,7 +50,7 @@ type lrOut struct {
 	Status  string        `json:"status,omitempty"`
 	UsedCpu uint64        `json:"used_cpu,omitempty"`
 	UsedMem uint64        `json:"used_mem,omitempty"`
-	Gor     int           `json:"goroutines_left,omitempty"`
+	Gor     *int          `json:"goroutines_left,omitempty"`
 	Stdout  string        `json:"stdout,omitempty"`
 }
 
@@ -257,6 +260,21 @@ func runLuaCase(c *lrCase) (o lrOut) {
 	return
 }
 
+// settledGoroutines returns the number of goroutines once it has stopped changing.
+func settledGoroutines() int {
+	last, same := goruntime.NumGoroutine(), 0
+	for i := 0; i < 400 && same < 3; i++ {
+		time.Sleep(200 * time.Microsecond)
+		n := goruntime.NumGoroutine()
+		if n == last {
+			same++
+		} else {
+			last, same = n, 0
+		}
+	}
+	return last
+}
+
 func luaRun(args []string) int {
 	return eachLine(func(line []byte) error {
 		var c lrCase
@@ -268,9 +286,23 @@ func luaRun(args []string) int {
 			to = 10000
 		}
 		done := make(chan lrOut, 1)
+		gorBefore := 0
+		if c.Gor {
+			gorBefore = settledGoroutines()
+		}
 		go func() { done <- runLuaCase(&c) }()
 		select {
 		case o := <-done:
+			if c.Gor {
+				left := settledGoroutines() - gorBefore
+				if c.GorExp != nil {
+					for i := 0; i < 3000 && left != *c.GorExp; i++ {
+						time.Sleep(time.Millisecond)
+						left = goruntime.NumGoroutine() - gorBefore
+					}
+				}
+				o.Gor = &left
+			}
 			emit(o)
 		case <-time.After(time.Duration(to) * time.Millisecond):
 			emit(lrOut{ID: c.ID, Timeout: true, Events: []interface{}{}})
